@@ -223,9 +223,27 @@ def audit_axioms(modules, theorems, scratch: Path):
     return res, out
 
 
-def forbidden_tokens():
+def import_closure(modules):
+    """project-local .lean files reachable through `import` from the given modules"""
+    seen, todo = {}, list(modules)
+    while todo:
+        m = todo.pop()
+        if m in seen:
+            continue
+        f = LEAN / (m.replace(".", "/") + ".lean")
+        if not f.exists():
+            continue
+        seen[m] = f
+        for mm in re.findall(r"^\s*(?:public\s+)?import\s+(\S+)", f.read_text(), re.M):
+            if mm.split(".")[0] in ("CogentModel", "Driver"):
+                todo.append(mm)
+    return sorted(seen.values())
+
+
+def forbidden_tokens(modules=None):
     hits = []
-    for p in sorted(LEAN.rglob("*.lean")):
+    files = import_closure(modules) if modules else sorted(LEAN.rglob("*.lean"))
+    for p in files:
         if ".lake" in p.parts:
             continue
         src = strip_comments(p.read_text())
@@ -436,7 +454,7 @@ def _run(mod, ctx: Ctx) -> int:
                 broken.append(("audit", "leanchecker", (pc.stdout + pc.stderr)[-500:]))
         except FileNotFoundError:
             leanchecker = dict(modules=mods, rc=None, tail="leanchecker not found")
-    forb = forbidden_tokens()
+    forb = forbidden_tokens(targets_modules(targets) + (["Driver." + prop] if driver_name else []))
     for h in forb:
         broken.append(("audit", "forbidden-token", h))
 
